@@ -46,7 +46,7 @@ __wrap_timerfd_settime(int fd, int flags, const struct itimerspec *n, struct iti
 }
 
 /* ------------------------------------------------------------------ case description */
-enum { H_ARRIVE = 1, H_CLOSE, H_FIRE, H_ENABLE, H_DRAIN, H_RESTART };
+enum { H_ARRIVE = 1, H_CLOSE, H_FIRE, H_ENABLE, H_DRAIN, H_RESTART, H_RESET };
 typedef struct hstep_s { uint8_t op, k; } hstep_t;
 #define MAXH 12
 enum { POL_CONTINUE = 0, POL_STOP_AT_1, POL_STOP_AT_2, POL_DESTROY_AT_1, POL_DESTROY_AT_2, POL_NONE_AT_1_THEN_ENABLE, POL_NONE_AT_2_THEN_ENABLE, POL_N };
@@ -84,6 +84,7 @@ static int reported;		/* sum of transfered_size given to callbacks (of the curre
 static int run_base;		/* buffer offset at which the current run of the task was started */
 static int ncb, n_eof_cb, n_timeout_cb, fires_armed;
 static int task_dead;		/* stop/destroy returned (no further callback allowed) */
+static int peer_reset, reset_while_armed, n_reset_cb;
 static int task_destroyed;
 static int task_paused;		/* dispatch + non-continue return: silent until re-enabled */
 static int task_started;
@@ -109,6 +110,7 @@ case_desc(char *b, size_t n) {
 		switch (C.h[i].op) {
 		case H_ARRIVE: o += (size_t)snprintf(b + o, n - o, " +%d", C.h[i].k); break;
 		case H_CLOSE: o += (size_t)snprintf(b + o, n - o, " close"); break;
+		case H_RESET: o += (size_t)snprintf(b + o, n - o, " reset"); break;
 		case H_FIRE: o += (size_t)snprintf(b + o, n - o, " fire"); break;
 		case H_RESTART: o += (size_t)snprintf(b + o, n - o, " stop+start"); break;
 		case H_ENABLE: o += (size_t)snprintf(b + o, n - o, " enable"); break;
@@ -149,6 +151,9 @@ check_buffer(const char *when) {
 	}
 }
 
+static int ncb_after_reset;
+static int ncb_at_reset_ok(void) { return (ncb_after_reset > 0 || !task_dead); }	/* a task that was stopped before any event after the reset owes nothing */
+
 static int
 task_cb(tp_task_p tptask, int error, io_buf_p b, uint32_t eof, size_t transfered_size, void *udata) {
 	(void)udata;
@@ -162,6 +167,7 @@ task_cb(tp_task_p tptask, int error, io_buf_p b, uint32_t eof, size_t transfered
 	if (tptask != task || b != &buf)
 		cfail("wrong-task-args", "callback got another task/buffer");
 	reported += (int)transfered_size;
+	if (peer_reset) ncb_after_reset ++;
 	check_buffer("in callback");
 	if (reported != (int)buf.offset - run_base)
 		cfail("transferred-count", "sum of transferred sizes %d but cursor advanced by %d%s", reported, (int)buf.offset - run_base, (run_base != C.off) ? " since the task was started again" : "");
@@ -170,6 +176,8 @@ task_cb(tp_task_p tptask, int error, io_buf_p b, uint32_t eof, size_t transfered
 			n_timeout_cb ++;
 			if (n_timeout_cb > fires_armed)
 				cfail("spurious-timeout", "ETIMEDOUT reported %d times, the timer expired %d times while armed", n_timeout_cb, fires_armed);
+		} else if (ECONNRESET == error && peer_reset) {
+			n_reset_cb ++;
 		} else if (!(C.send && !peer_open)) {
 			cfail("unexpected-error", "callback error %d", error);
 		}
@@ -239,6 +247,14 @@ apply(const hstep_t *s) {
 		break;
 	case H_CLOSE:
 		if (peer_open) { close(sk[1]); sk[1] = -1; peer_open = 0; }
+		break;
+	case H_RESET: /* the peer goes away with unread data of ours in its queue: the connection is reset (ECONNRESET),
+		       * what it had sent before is still readable */
+		if (peer_open) {
+			if (3 != write(sk[0], "xyz", 3)) cfail("harness", "write towards the peer");
+			close(sk[1]); sk[1] = -1; peer_open = 0; peer_reset = 1;
+			if (task_started && !task_dead && !task_paused) reset_while_armed = 1;
+		}
 		break;
 	case H_FIRE:
 		/* Also while a dispatch task is paused: the library must have silenced its timer, so an
@@ -336,7 +352,7 @@ run_case(void) {
 	if (0 != tp_create(&s, &tp)) { vh_fail("harness", "tp_create"); return; }
 	t0 = tp_thread_get(tp, 0);
 	if (0 != socketpair(AF_UNIX, SOCK_STREAM | SOCK_NONBLOCK, 0, sk)) { vh_fail("harness", "socketpair"); return; }
-	peer_open = 1; arrived = 0; reported = 0; run_base = C.off; ncb = n_eof_cb = n_timeout_cb = fires_armed = 0;
+	peer_open = 1; peer_reset = reset_while_armed = n_reset_cb = ncb_after_reset = 0; arrived = 0; reported = 0; run_base = C.off; ncb = n_eof_cb = n_timeout_cb = fires_armed = 0;
 	task_dead = task_destroyed = task_paused = task_started = 0; task = NULL; in_start = paused_unscheduled = 0;
 	cur_step = 0; settle_left = 0; shutdown_sent = 0; rec_tfd_last = -1;
 	memset(bufmem, CANARY, sizeof(bufmem));
@@ -380,6 +396,11 @@ run_case(void) {
 		}
 		if (n_eof_cb > 1)
 			cfail("eof-reported-twice", "EOF reported %d times", n_eof_cb);
+		/* "socket errors ... are each reported once to the callback" */
+		if (n_reset_cb > 1)
+			cfail("socket-error-reported-twice", "ECONNRESET reported %d times", n_reset_cb);
+		if (!C.send && reset_while_armed && 0 == n_reset_cb && 0 == (C.evflags & TP_F_ONESHOT) && ncb_at_reset_ok())
+			cfail("socket-error-not-reported", "the peer reset the connection while the task was armed, no callback carried the error");
 		if (fires_armed > 0 && n_timeout_cb != fires_armed)
 			cfail("timeout-count", "timer expired %d time(s) while the task was armed, ETIMEDOUT reported %d time(s)", fires_armed, n_timeout_cb);
 	}
@@ -423,6 +444,11 @@ gen_hist(int left, int used_close, int used_fire, int used_enable) {
 		C.h[C.nh].op = H_CLOSE; C.h[C.nh].k = 0; C.nh ++;
 		gen_hist(left, 1, used_fire, used_enable);
 		C.nh --;
+		if (!C.send && POL_CONTINUE == C.pol && !C.used_zero) {
+			C.h[C.nh].op = H_RESET; C.h[C.nh].k = 0; C.nh ++;
+			gen_hist(left, 1, used_fire, used_enable);
+			C.nh --;
+		}
 	}
 	if (used_close)
 		return;
